@@ -318,6 +318,13 @@ func (c *c16Rig) attempt(op, kind string) {
 	if renterAfter != renterBefore {
 		e.Violationf("C16.no-trace", op+":renter-funds:"+kind, "%s failed (%s, renter %s) without the host recording a contract, but the renter wallet changed: spendable %v -> %v", op, kind, c.relation, renterBefore.bal.Spendable, renterAfter.bal.Spendable)
 	}
+	if kind == "none" && err != nil && strings.Contains(err.Error(), "too close to proof window") {
+		// a contract within the minimum duration of its proof height can no
+		// longer be refreshed or renewed: a proper refusal, leaving no trace
+		e.Probe("refused_close_to_proof_window")
+		c.contract = nil
+		return
+	}
 	if kind == "none" && !strings.HasPrefix(c.relation, "unknown-fork") && !strings.HasPrefix(c.relation, "stale-fork") {
 		e.Violationf("C16.honest-rpc", op+":"+c.relation, "undisturbed %s (renter %s) failed: %v", op, c.relation, err)
 	}
